@@ -12,11 +12,12 @@ import (
 	"hapverif/internal/core"
 )
 
-// has builds an atom matcher: the key contains every given substring.
+// has builds an atom matcher: the key contains every given substring; a
+// substring prefixed with ~ must NOT occur.
 func has(subs ...string) func(string) bool {
 	return func(k string) bool {
 		for _, s := range subs {
-			if strings.HasPrefix(s, "!") {
+			if strings.HasPrefix(s, "~") {
 				if strings.Contains(k, s[1:]) {
 					return false
 				}
@@ -518,4 +519,29 @@ func authHoldersByTypes(c *core.Ctx, _ []string) []string {
 func structOf(nt *types.Named) *types.Struct {
 	st, _ := nt.Underlying().(*types.Struct)
 	return st
+}
+
+// bindDeps binds only the atoms cond depends on. unbound lists dependent atoms
+// no matcher recognised; dup reports an ambiguous match.
+func bindDeps(t *core.Table, cond core.TT, m matchers) (b *core.Binding, unbound []string, dup string) {
+	b = &core.Binding{Names: make([]string, len(t.Atoms))}
+	used := map[string]bool{}
+	for i, a := range t.Atoms {
+		if !cond.DependsOn(i) {
+			continue
+		}
+		for _, n := range sortedKeys(m) {
+			if m[n](a) {
+				if b.Names[i] != "" || used[n] {
+					dup = n + " / " + a
+				}
+				b.Names[i] = n
+				used[n] = true
+			}
+		}
+		if b.Names[i] == "" {
+			unbound = append(unbound, a)
+		}
+	}
+	return
 }
